@@ -85,6 +85,11 @@ def _b_rowsfn(step, env):
     return f
 
 
+@core.builder('c06_set_type_transform')
+def _b_stt(step, env):
+    return core.dataflows.set_type('s', type='integer', resources=None, transform=lambda v: v)
+
+
 @core.builder('c06_filter')
 def _b_filter(step, env):
     return core.dataflows.filter_rows(condition=lambda row: row['_i'] % 2 == 0)
@@ -114,6 +119,7 @@ SYMS = {
     'find_replace': S('find_replace', [{'name': 'u2', 'patterns': [{'find': 'q', 'replace': 'Q'}]}]),
     'set_type': S('set_type', 's', type='integer', resources=None),
     'validate': S('validate'),
+    'set_type_transform': {'op': 'c06_set_type_transform'},
     'filter_rows': {'op': 'c06_filter'},
     'unpivot': S('unpivot', [{'name': 'u([12])', 'keys': {'un': r'\1'}}], [{'name': 'un', 'type': 'string'}],
                  {'name': 'uv', 'type': 'string'}),
@@ -143,7 +149,8 @@ SYMS = {
 }
 CONTROL = {'sort_rows': S('sort_rows', '{_i}')}      # buffering step: the monitor's positive control
 SIGMA = list(SYMS)
-SOURCES = ['gen1', 'gen2', 'tuple1', 'tuple-limit', 'genlist', 'gen1-take10', 'tuple1-take10', 'gen1-badrow', 'sized1', 'tuple-select']
+SOURCES = ['gen1', 'gen2', 'tuple1', 'tuple-limit', 'genlist', 'gen1-take10', 'tuple1-take10', 'gen1-badrow', 'sized1', 'tuple-select',
+           'tuple-noschema']
 
 
 def run_one(srckind, path, n):
@@ -160,6 +167,9 @@ def run_one(srckind, path, n):
         if srckind in ('gen1', 'gen2'):
             for k in range(nsrc):
                 links.append(gen_source(mon, k, n))
+        elif srckind == 'tuple-noschema':
+            # a hand-written descriptor whose resource has no schema at all
+            links.append(core.dataflows.load(({'name': 'p', 'resources': [{'name': 't', 'path': 't.csv'}]}, iter([gen_source(mon, 0, n)]))))
         elif srckind == 'tuple-select':
             # a (descriptor, iterators) pair with two lazy resources of which only the second is requested
             st = core.mkstate([('skipped', FIELDS, []), ('t', FIELDS, [])])
